@@ -85,7 +85,9 @@ func (p *Pool) get() (any, *byte) {
 	w.Stats.PoolGets++
 	n := len(p.items)
 	pick := -1
-	if n > 0 {
+	if n > 0 && w.intruding {
+		pick = n - 1 // the interfering goroutine receives exactly what was just Put
+	} else if n > 0 {
 		switch w.Cfg.PoolPolicy {
 		case PoolFresh:
 		case PoolLIFO:
@@ -156,7 +158,58 @@ func (p *Pool) Put(x any) {
 		// the one happens-before edge a real pool provides: Put -> later Get of the same item
 		raceReleaseMerge(unsafe.Pointer(addr))
 	}
+	if addr != nil && wantIntrusion() {
+		intrude()
+	}
 	Yield(0, ClassPool)
+}
+
+// wantIntrusion decides whether "another goroutine" gets to use the pool right after
+// this Put and before the caller's next instruction - the window a real sync.Pool
+// leaves open as soon as Put returns.  The single-task engines have no second task
+// to schedule there, so the world runs a registered interfering call re-entrantly.
+//
+//go:norace
+func wantIntrusion() bool {
+	w := W
+	if w == nil || w.Intruder == nil || w.intruding || w.Cfg.IntrudePermille <= 0 || !w.cur.inCall || w.cur.src == nil {
+		return false
+	}
+	return w.choose(3, 1000) < w.Cfg.IntrudePermille
+}
+
+func intrude() {
+	w := W
+	saved := w.beginIntrusion()
+	func() {
+		defer func() { recover() }() // the interfering call's own failures are not under test here
+		w.Intruder()
+	}()
+	w.endIntrusion(saved)
+}
+
+//go:norace
+func (w *World) beginIntrusion() Task {
+	t := w.cur
+	saved := *t
+	w.intruding = true
+	w.Stats.Intrusions++
+	w.callSerial++
+	t.callSerial = w.callSerial
+	t.callKind = 0xfffe
+	t.src = nil
+	t.callSteps = 0
+	t.budget = 50_000_000
+	t.held = 0
+	w.ev(EvUser, 0xfffe, 0)
+	return saved
+}
+
+//go:norace
+func (w *World) endIntrusion(saved Task) {
+	t := w.cur
+	t.src, t.callSerial, t.callKind, t.callYields, t.callSteps, t.budget, t.held, t.inCall = saved.src, saved.callSerial, saved.callKind, saved.callYields, saved.callSteps, saved.budget, saved.held, saved.inCall
+	w.intruding = false
 }
 
 //go:norace
@@ -185,7 +238,7 @@ func (p *Pool) put(x any) *byte {
 			return nil
 		}
 	}
-	if w.Cfg.EvictPermille > 0 && w.choose(2, 1000) < w.Cfg.EvictPermille {
+	if w.Cfg.EvictPermille > 0 && !w.intruding && w.choose(2, 1000) < w.Cfg.EvictPermille {
 		w.Stats.PoolEvicted++
 		w.ev(EvPoolEvict, p.idx, 0)
 		return nil
